@@ -158,6 +158,12 @@ func (f *filler) fill(v reflect.Value) {
 		for i := 0; i < v.NumField(); i++ {
 			f.fill(v.Field(i))
 		}
+	case reflect.Map:
+		for _, k := range v.MapKeys() {
+			if e := v.MapIndex(k); e.Kind() == reflect.Ptr || e.Kind() == reflect.Slice {
+				f.fill(addressable(e))
+			}
+		}
 	case reflect.Array, reflect.Slice:
 		n := v.Len()
 		if n == 0 {
